@@ -78,6 +78,7 @@ structure Obj where
   networkError : Bool := false
   ctxCancelled : Bool := false
   finCode      : Option Nat := none
+  task         : Option Nat := none     -- identity of the task that executes this response (set by startTask)
 deriving DecidableEq, Repr
 
 inductive TxOp where
@@ -109,6 +110,7 @@ def Ev.peer : Ev → Peer
 structure Exec where
   task : Peer × ReqId
   k    : Serial
+  tid  : Nat := 0        -- identity of the *peertask.Task handed to ExecuteTask
 deriving DecidableEq, Repr
 
 abbrev Table := List (ReqId × Serial)
@@ -127,6 +129,7 @@ structure State where
   pending : List (Peer × ReqId) := []
   active  : List (Peer × ReqId) := []
   execs   : List Exec := []
+  nextTid : Nat := 0
 deriving Repr
 
 def State.obj (s : State) (k : Serial) : Option Obj := s.objs[k]?
@@ -184,7 +187,8 @@ def unpauseRequest (s : State) (id : ReqId) : State × List Ev × Res :=
   | none => (s, [], .notFound)
   | some (k, o) =>
     if o.state ≠ .paused then (s, [], .notPaused)
-    else ({ (s.setObj k { o with state := .queued }) with pending := s.pending ++ [(o.peer, id)] }, [Ev.push o.peer id], .ok)
+    else ({ (s.setObj k { o with state := .queued, sigPause := false }) with pending := s.pending ++ [(o.peer, id)] },
+          [Ev.push o.peer id], .ok)
 
 /-- processUpdate(id, update) -/
 def processUpdate (s : State) (id : ReqId) (uh : UpdHook) : State × List Ev :=
@@ -230,12 +234,24 @@ def foreign (s : State) (q : Peer) (x : Request) : Bool :=
 def dispatchCase (d : List DispatchCase) (t : ReqType) : Option DispatchCase :=
   d.find? (fun c => c.typ == t)
 
+/-- value of an operand of a guard's comparison -/
+def evalPeer (t : PeerTerm) (sender : Peer) (o : Obj) : Peer :=
+  match t with
+  | .sender => sender
+  | .entryPeer => o.peer
+
+/-- the guard as written in the source: `e, ok := table[request.ID()]; ok && lhs != rhs` -/
+def guardSkips (g : PeerGuard) (s : State) (q : Peer) (x : Request) : Bool :=
+  match s.lookup x.id with
+  | some (_, o) => evalPeer g.lhs q o != evalPeer g.rhs q o
+  | none => false
+
 /-- one iteration of the loop of `processRequests` -/
 def handleOne (d : List DispatchCase) (q : Peer) (s : State) (x : Request) : State × List Ev :=
   match dispatchCase d x.typ with
   | none => (s, [])
   | some c =>
-    if c.peerGuard && foreign s q x then (s, [])
+    if (match c.guard with | some g => guardSkips g s q x | none => false) then (s, [])
     else match c.handler with
       | .new => newRequest s q x
       | .abort => let r := abortRequest s x.id .ctxCancel; (r.1, r.2.1)
@@ -266,24 +282,50 @@ def startTask (s : State) (t : Peer × ReqId) : State × List Ev × Res :=
       if o.state = .completing then (s1, [Ev.taskDone t.1 t.2], .emptyTask)
       else
         let ev := if o.started then [] else [Ev.lProcessing o.peer t.2]
-        ({ (s1.setObj k { o with started := true, state := .running }) with
-             active := s1.active ++ [t], execs := s1.execs ++ [{ task := t, k := k }] }, ev, .running)
+        ({ (s1.setObj k { o with started := true, state := .running, task := some s1.nextTid }) with
+             active := s1.active ++ [t], execs := s1.execs ++ [{ task := t, k := k, tid := s1.nextTid }],
+             nextTid := s1.nextTid + 1 }, ev, .running)
 
 /-- finishTask(task, p, err) -/
 def finishTask (s : State) (t : Peer × ReqId) (err : Option ErrK) (paused : Bool) : State × List Ev :=
+  let tid? := (findExec s.execs t).map (·.tid)
   let s1 := { s with active := eraseFirst s.active t, execs := dropExec s.execs t }
   let ev0 := [Ev.taskDone t.1 t.2]
   match s1.lookup t.2 with
   | none => (s1, ev0)
   | some (k, o) =>
-    if paused then (s1.setObj k { o with state := .paused }, ev0)
+    if o.task ≠ tid? then
+      -- the task belongs to an earlier response with the same ID: leave the one in the table alone,
+      -- except that a queued one gets its task pushed (again)
+      if o.state = .queued then ({ s1 with pending := s1.pending ++ [(o.peer, t.2)] }, ev0 ++ [Ev.push o.peer t.2])
+      else (s1, ev0)
+    else if o.networkError then
+      let r := terminate s1 t.2
+      (r.1, ev0 ++ r.2)
+    else if paused then (s1.setObj k { o with state := .paused }, ev0)
     else if err = some .ctxCancel then
       let r := terminate s1 t.2
       (r.1, ev0 ++ [Ev.lCancelled t.1 t.2] ++ r.2)
-    else if err = some .network || o.networkError then
+    else if err = some .network then
       let r := terminate s1 t.2
       (r.1, ev0 ++ r.2)
     else (s1.setObj k { o with state := .completing }, ev0)
+
+/-- GetUpdates(id): by ID, through the table; returns and clears the queued updates -/
+def getUpdates (s : State) (id : ReqId) : List UpdHook × State :=
+  match s.lookup id with
+  | none => ([], s)
+  | some (k2, o2) => (o2.updates, s.setObj k2 { o2 with updates := [] })
+
+/-- the executor runs the update hooks (in the name of its task's peer) on the updates it fetched -/
+def runUpdateHooks (taskPeer : Peer) (k : Serial) (o : Obj) : List UpdHook → List Ev → List Ev × Option ErrK
+  | [], acc => (acc, none)
+  | u :: rest, acc =>
+    let acc1 := acc ++ [Ev.hookUpd taskPeer o.id]
+    match u with
+    | .ext => runUpdateHooks taskPeer k o rest (acc1 ++ [Ev.tx k o.peer o.id .ext])
+    | .err => (acc1, some .hook)
+    | _ => runUpdateHooks taskPeer k o rest acc1
 
 /-- outcome of `checkForUpdates`: events, pause seen, error to abort with; the state after
     GetUpdates calls.  `fuel` bounds the loop (each round consumes a signal). -/
@@ -301,26 +343,52 @@ def checkForUpdates : Nat → State → Exec → State × List Ev × Bool × Opt
           if o.sigUpdate then
             let s1 := s.setObj e.k { o with sigUpdate := false }
             -- GetUpdates(id): by ID, through the table
-            let ups : List UpdHook × State :=
-              match s1.lookup e.task.2 with
-              | none => ([], s1)
-              | some (k2, o2) => (o2.updates, s1.setObj k2 { o2 with updates := [] })
-            let rec run (us : List UpdHook) (acc : List Ev) : List Ev × Option ErrK :=
-              match us with
-              | [] => (acc, none)
-              | u :: rest =>
-                let acc1 := acc ++ [Ev.hookUpd e.task.1 o.id]
-                match u with
-                | .ext => run rest (acc1 ++ [Ev.tx e.k o.peer o.id .ext])
-                | .err => (acc1, some .hook)
-                | _ => run rest acc1
-            let r := run ups.1 []
+            let ups := getUpdates s1 e.task.2
+            let r := runUpdateHooks e.task.1 e.k o ups.1 []
             match r.2 with
             | some err => (ups.2, r.1, false, some err)
             | none =>
               let r2 := checkForUpdates fuel ups.2 e
               (r2.1, r.1 ++ r2.2.1, r2.2.2.1, r2.2.2.2)
           else (s, [], false, none)
+
+/-- the transaction is abandoned before SendResponse; executeQuery closes the response -/
+def abortTail (s1 : State) (e : Exec) (o : Obj) (err : ErrK) : State × List Ev :=
+  match err with
+  | .network | .ctxCancel => (s1, [Ev.tx e.k o.peer o.id .clear])
+  | .byCommand => (s1.setObj e.k { o with finCode := some StatusCodes.RequestCancelled },
+                   [Ev.tx e.k o.peer o.id (.fin StatusCodes.RequestCancelled)])
+  | .hook => (s1.setObj e.k { o with finCode := some StatusCodes.RequestFailedUnknown },
+              [Ev.tx e.k o.peer o.id (.fin StatusCodes.RequestFailedUnknown)])
+
+/-- the scripted block hook at block `i`: events, paused by hook, failed by hook -/
+def hookOutcome (e : Exec) (o : Obj) (i : Nat) : List Ev × Bool × Bool :=
+  match o.bh with
+  | .extAt j => if j = i then ([Ev.tx e.k o.peer o.id .ext], false, false) else ([], false, false)
+  | .pauseAt j => if j = i then ([Ev.tx e.k o.peer o.id .pause], true, false) else ([], false, false)
+  | .errAt j => if j = i then ([], false, true) else ([], false, false)
+  | .none => ([], false, false)
+
+/-- SendResponse for block `o.sent`, block hook, then: next read / pause / completion / hook failure -/
+def sendBlock (s1 : State) (e : Exec) (o : Obj) (t : Peer × ReqId) (evs0 : List Ev) (pauseSeen : Bool) :
+    State × List Ev × Res :=
+  let i := o.sent
+  let o1 := { o with sent := i + 1 }
+  let hk := hookOutcome e o i
+  let evs := evs0 ++ [Ev.tx e.k o.peer o.id (.blk i), Ev.hookBlk t.1 o.id i] ++ hk.1
+  let s2 := s1.setObj e.k o1
+  if hk.2.2 then
+    let s3 := s2.setObj e.k { o1 with finCode := some StatusCodes.RequestFailedUnknown }
+    let f := finishTask s3 t (some .hook) false
+    (f.1, evs ++ [Ev.tx e.k o.peer o.id (.fin StatusCodes.RequestFailedUnknown)] ++ f.2, .finished)
+  else if hk.2.1 || pauseSeen then
+    let f := finishTask s2 t none true
+    (f.1, evs ++ f.2, .finished)
+  else if i + 1 ≥ o.total then
+    let s3 := s2.setObj e.k { o1 with finCode := some StatusCodes.RequestCompletedFull }
+    let f := finishTask s3 t none false
+    (f.1, evs ++ [Ev.tx e.k o.peer o.id (.fin StatusCodes.RequestCompletedFull)] ++ f.2, .finished)
+  else (s2, evs, .atGate)
 
 /-- the executor is released from the store read of block `sent` -/
 def stepExec (s : State) (t : Peer × ReqId) : State × List Ev × Res :=
@@ -337,39 +405,10 @@ def stepExec (s : State) (t : Peer × ReqId) : State × List Ev × Res :=
       | some o =>
         match c.2.2.2 with
         | some err =>
-          -- the transaction is abandoned before SendResponse; executeQuery closes the response
-          let tail : State × List Ev :=
-            match err with
-            | .network | .ctxCancel => (s1, [Ev.tx e.k o.peer o.id .clear])
-            | .byCommand => (s1.setObj e.k { o with finCode := some StatusCodes.RequestCancelled },
-                             [Ev.tx e.k o.peer o.id (.fin StatusCodes.RequestCancelled)])
-            | .hook => (s1.setObj e.k { o with finCode := some StatusCodes.RequestFailedUnknown },
-                        [Ev.tx e.k o.peer o.id (.fin StatusCodes.RequestFailedUnknown)])
+          let tail := abortTail s1 e o err
           let f := finishTask tail.1 t (some err) false
           (f.1, c.2.1 ++ tail.2 ++ f.2, .finished)
-        | none =>
-          let i := o.sent
-          let o1 := { o with sent := i + 1 }
-          let hk : List Ev × Bool × Bool :=      -- events, paused by hook, failed by hook
-            match o.bh with
-            | .extAt j => if j = i then ([Ev.tx e.k o.peer o.id .ext], false, false) else ([], false, false)
-            | .pauseAt j => if j = i then ([Ev.tx e.k o.peer o.id .pause], true, false) else ([], false, false)
-            | .errAt j => if j = i then ([], false, true) else ([], false, false)
-            | .none => ([], false, false)
-          let evs := c.2.1 ++ [Ev.tx e.k o.peer o.id (.blk i), Ev.hookBlk t.1 o.id i] ++ hk.1
-          let s2 := s1.setObj e.k o1
-          if hk.2.2 then
-            let s3 := s2.setObj e.k { o1 with finCode := some StatusCodes.RequestFailedUnknown }
-            let f := finishTask s3 t (some .hook) false
-            (f.1, evs ++ [Ev.tx e.k o.peer o.id (.fin StatusCodes.RequestFailedUnknown)] ++ f.2, .finished)
-          else if hk.2.1 || c.2.2.1 then
-            let f := finishTask s2 t none true
-            (f.1, evs ++ f.2, .finished)
-          else if i + 1 ≥ o.total then
-            let s3 := s2.setObj e.k { o1 with finCode := some StatusCodes.RequestCompletedFull }
-            let f := finishTask s3 t none false
-            (f.1, evs ++ [Ev.tx e.k o.peer o.id (.fin StatusCodes.RequestCompletedFull)] ++ f.2, .finished)
-          else (s2, evs, .atGate)
+        | none => sendBlock s1 e o t c.2.1 c.2.2.1
 
 /-- `start`: startTask, then the executor runs until its first store read; a traversal that had
     already delivered its last block before a pause completes at once (FinishRequest + FinishTask) -/
@@ -404,22 +443,67 @@ def updateResp (s : State) (id : ReqId) : State × List Ev × Res :=
   | none => (s, [], .notFound)
   | some (k, o) => (s, [Ev.tx k o.peer o.id .upd], .ok)
 
-/-- subscriber.OnNext for the message that carries stream `k`'s latest operations -/
-def notify (s : State) (k : Serial) (isErr : Bool) : State × List Ev × Res :=
+/-- does a closer call (TerminateRequest / CloseWithNetworkError) made by the subscriber of response
+    object `k` act on the table entry under `id`?  By ID only: always.  `ownResponse`: only if that
+    entry is object `k` itself (`isResponseOf`). -/
+def closerApplies (ck : KeyKind) (s : State) (k : Serial) (id : ReqId) : Bool :=
+  match ck with
+  | .ownResponse => s.table.get id == some k
+  | _ => true
+
+/-- the subscriber's CloseWithNetworkError(id) -/
+def closeNetErr (ck : KeyKind) (s : State) (k : Serial) (id : ReqId) : State × List Ev × Res :=
+  if closerApplies ck s k id then abortRequest s id .network else (s, [], .notFound)
+
+/-- the subscriber's TerminateRequest(id), made only if the message carried a terminal status -/
+def closeTerm (ck : KeyKind) (s : State) (k : Serial) (id : ReqId) (term : Bool) : State × List Ev :=
+  if term && closerApplies ck s k id then terminate s id else (s, [])
+
+def injectMsg (d : List DispatchCase) (inject : Option (Peer × List Request)) (st : State) : State × List Ev :=
+  match inject with
+  | some (q, reqs) => processRequests d q st reqs
+  | none => (st, [])
+
+def cleared (evs : List Ev) : Bool :=
+  evs.any (fun e => match e with | .tx _ _ _ .clear => true | _ => false)
+
+/-- Error notification: the other connection's message gets in between the two calls exactly when the
+    first call removed the response (that is the point at which the harness releases it:
+    ClearRequest); otherwise it is simply handled after the notification -/
+def notifyErr (d : List DispatchCase) (ck : KeyKind) (s0 : State) (k : Serial) (o : Obj) (term : Bool)
+    (inject : Option (Peer × List Request)) : State × List Ev × Res :=
+  let a := closeNetErr ck s0 k o.id
+  -- the network-error listeners are told only if the first call found the response (e842a00)
+  let nev := if a.2.2 = .ok then [Ev.lNetErr o.peer o.id] else []
+  if cleared a.2.1 then
+    let i := injectMsg d inject a.1
+    let t := closeTerm ck i.1 k o.id term
+    (t.1, a.2.1 ++ i.2 ++ t.2 ++ nev, .ok)
+  else
+    let t := closeTerm ck a.1 k o.id term
+    let i := injectMsg d inject t.1
+    (i.1, a.2.1 ++ t.2 ++ nev ++ i.2, .ok)
+
+def notifySent (ck : KeyKind) (s0 : State) (k : Serial) (o : Obj) (code : Option Nat) (term : Bool) :
+    State × List Ev × Res :=
+  if term then
+    let t := closeTerm ck s0 k o.id true
+    (t.1, t.2 ++ [Ev.lCompleted o.peer o.id (code.getD 0)], .ok)
+  else (s0, [], .ok)
+
+/-- subscriber.OnNext for the message that carries stream `k`'s latest operations.  On an error the
+    subscriber makes two separate calls into the manager, CloseWithNetworkError(id) and — if the
+    message carried the response's terminal status — TerminateRequest(id); `inject` is a message
+    from another connection that reaches the manager's mailbox between the two (`none` = nothing). -/
+def notify (d : List DispatchCase) (ck : KeyKind) (s : State) (k : Serial) (isErr : Bool)
+    (inject : Option (Peer × List Request)) : State × List Ev × Res :=
   match s.obj k with
   | none => (s, [], .notFound)
   | some o =>
     let code := o.finCode
     let s0 := s.setObj k { o with finCode := none }
     let term := match code with | some c => StatusCodes.isTerminal c | none => false
-    if isErr then
-      let a := abortRequest s0 o.id .network
-      let t := if term then terminate a.1 o.id else (a.1, [])
-      (t.1, a.2.1 ++ t.2 ++ [Ev.lNetErr o.peer o.id], .ok)
-    else if term then
-      let t := terminate s0 o.id
-      (t.1, t.2 ++ [Ev.lCompleted o.peer o.id (code.getD 0)], .ok)
-    else (s0, [], .ok)
+    if isErr then notifyErr d ck s0 k o term inject else notifySent ck s0 k o code term
 
 inductive Op where
   | msg (q : Peer) (reqs : List Request)
@@ -431,18 +515,21 @@ inductive Op where
   | updateResp (id : ReqId)
   | sent (p : Peer) (j : Nat)      -- the message carrying the latest operations of peer p's j-th stream was sent
   | neterr (p : Peer) (j : Nat)    -- … failed to be sent
+  | neterrInj (p : Peer) (j : Nat) (q : Peer) (reqs : List Request)
+      -- … failed to be sent, and a message from `q` arrives between the subscriber's two calls
 deriving Repr
 
 /-- serials of the streams created for peer `p`, in creation order -/
 def streamsOf (s : State) (p : Peer) : List Serial :=
   (List.range s.objs.length).filter fun k => match s.obj k with | some o => o.peer == p | none => false
 
-def notifyAt (s : State) (p : Peer) (j : Nat) (isErr : Bool) : State × List Ev × Res :=
+def notifyAt (d : List DispatchCase) (ck : KeyKind) (s : State) (p : Peer) (j : Nat) (isErr : Bool)
+    (inject : Option (Peer × List Request)) : State × List Ev × Res :=
   match (streamsOf s p)[j]? with
-  | some k => notify s k isErr
+  | some k => notify d ck s k isErr inject
   | none => (s, [], .notFound)
 
-def stepD (d : List DispatchCase) (s : State) : Op → State × List Ev × Res
+def stepD (d : List DispatchCase) (ck : KeyKind) (s : State) : Op → State × List Ev × Res
   | .msg q reqs => let r := processRequests d q s reqs; (r.1, r.2, .ok)
   | .start p id => startExec s (p, id)
   | .step p id => stepExec s (p, id)
@@ -450,17 +537,18 @@ def stepD (d : List DispatchCase) (s : State) : Op → State × List Ev × Res
   | .unpauseResp id => unpauseRequest s id
   | .cancelResp id => abortRequest s id .byCommand
   | .updateResp id => updateResp s id
-  | .sent p j => notifyAt s p j false
-  | .neterr p j => notifyAt s p j true
+  | .sent p j => notifyAt d ck s p j false none
+  | .neterr p j => notifyAt d ck s p j true none
+  | .neterrInj p j q reqs => notifyAt d ck s p j true (some (q, reqs))
 
 /-- one mailbox message / worker step of the code as it is today -/
-def step (s : State) (op : Op) : State × List Ev × Res := stepD RespDispatch.dispatch s op
+def step (s : State) (op : Op) : State × List Ev × Res := stepD RespDispatch.dispatch RespDispatch.closerKey s op
 
-def runD (d : List DispatchCase) (s : State) : List Op → State × List (List Ev × Res)
+def runD (d : List DispatchCase) (ck : KeyKind) (s : State) : List Op → State × List (List Ev × Res)
   | [] => (s, [])
   | op :: ops =>
-    let r1 := stepD d s op
-    let r2 := runD d r1.1 ops
+    let r1 := stepD d ck s op
+    let r2 := runD d ck r1.1 ops
     (r2.1, (r1.2.1, r1.2.2) :: r2.2)
 
 /-- `peerState`: the responses served to peer `p` -/
